@@ -162,7 +162,13 @@ def corpus(tier, seed, shard, nshards):
     return out
 
 
+_STATE0 = None
+
+
 def cases(tier, seed, shard, nshards):
+    global _STATE0
+    from ..fingerprint import module_state
+    _STATE0 = module_state()  # before anything is built or rendered in this worker
     items = corpus(tier, seed, shard, nshards)
     nthread = (64 if tier == "quick" else 1000) // nshards + 1
     for i, (prog, tgt) in enumerate(items):
@@ -542,7 +548,19 @@ def spawn_digest(tier, seed, shard, nshards, limit, hs, order):
                             cwd=VERIF, env=env, stdout=subprocess.PIPE, stderr=subprocess.PIPE, text=True)
 
 
+def check_module_state(mon):
+    """Nothing that was built or rendered in this worker wrote to a module-level object or a class attribute of the package."""
+    from ..fingerprint import module_state
+    now = module_state()
+    mon.count("module_level_objects_compared", len(now))
+    for lab in sorted(set(now) | set(_STATE0 or {})):
+        if (_STATE0 or {}).get(lab) != now.get(lab):
+            mon.violation("module-state:%s" % lab.replace("pypika_tortoise.", ""),
+                          "the shared object %s differs from what it was before this worker built and rendered its corpus" % lab, case={"k": "module-state"})
+
+
 def finish(mon, tier, seed, shard, nshards):
+    check_module_state(mon)
     limit = 120 if tier == "quick" else 6000
     seeds = hash_seeds(tier, seed)
     outs = {}
@@ -623,11 +641,13 @@ _run_case0 = run_case
 def run_case(case, mon):  # noqa: F811
     if case["k"] == "proc":
         return run_proc_case(case, mon)
+    if case["k"] == "module-state":
+        return  # (replay: the state is compared at the end of a worker's whole corpus)
     return _run_case0(case, mon)
 
 
 def FLOORS(tier):
-    return {"render_events": 5000, "repeat_comparisons": 500, "twin_fingerprint_comparisons": 1000,
+    return {"module_level_objects_compared": 200, "render_events": 5000, "repeat_comparisons": 500, "twin_fingerprint_comparisons": 1000,
             "threaded_renders": 2000, "renders_overlapped_by_a_switch": 50, "child_interpreters": 8,
             "cross_process_digests": 2000}
 
